@@ -109,17 +109,30 @@ def _observe(ds, store, views, model, exists, q, desc):
                 n += 1
         if n != 1:
             return "quads() differs from the model"
-    # 1b. quads restricted to one graph
+    # 1b. quads restricted to one graph.  rdflib also reports the *other* graphs a matching triple is
+    # asserted in (its own suite asserts this: test_aggregate_graphs.py::test_aggregate2), and the
+    # property does not fix the meaning of a quad pattern, so only this is demanded: every reported
+    # quad is a true quad of the dataset, and the quads reported for the named graph are exactly
+    # that graph's content (in particular nothing for an empty or unknown graph).
     for gn in list(NAMES) + ["unknown"]:
         ident = NAMES.get(gn, UNKNOWN)
         if gn == "d" and union:
             continue
         content = model.get(gn, [])
-        got = list(ds.quads((None, None, None, ident)))
-        for r in got:
-            if norm(r[3]) != ident:
-                return "quads() restricted to graph %s yields a quad of another graph" % gn
-        if not same_set([r[:3] for r in got], content):
+        mine = []
+        for r in ds.quads((None, None, None, ident)):
+            if norm(r[3]) == ident:
+                mine.append(r[:3])
+            else:
+                ok = False
+                for g2 in NAMES:
+                    if NAMES[g2] == norm(r[3]) and tin(r[:3], model[g2]):
+                        ok = True
+                if not ok:
+                    return "quads() restricted to graph %s yields a quad that is not in the dataset" % gn
+                if not tin(r[:3], content):
+                    return "quads() restricted to graph %s yields a triple that is not in that graph" % gn
+        if not same_set(mine, content):
             return "quads() restricted to graph %s differs from that graph" % gn
     # 2. graphs()
     ids = [g.identifier for g in ds.graphs()]
